@@ -124,7 +124,7 @@ def run(ctx):
         vb = of_impl(b)
         nt = va[0] == 'T' and len(va[2]) >= 2
         ctx.case(['pickle', shape_of(va)], nt)
-        if vb != va or hash(a) != hash(b) or nc.counter(impl) != T:
+        if vb != va or hash(a) != hash(b) or nc.counter(impl) != T + nc.probe_cost(impl):
             ctx.violation('impl-violation', op='pickle', input=json.dumps(shape_of(va)), observed=repr(vb)[:800],
                           expected=repr(va)[:800] + ' (same identities and hash, no identity allocated)')
         calls.append((12, [w_node(a), T])); meta.append(('pickle', va, None))
@@ -151,6 +151,11 @@ def run(ctx):
             if [of_impl(c) for c in mod.data[1:]] != [of_impl(t) for t in payload] or hash(mod) != hash(impl.Node('wrapped', *payload)):
                 ctx.violation('impl-violation', op='pool-modified', input=json.dumps(impl.to_shapes(payload)),
                               observed=repr(of_impl(mod))[:800], expected='children identical to the trees sent; hash as built locally')
+    # --- identities of nodes built in pool workers
+    ncase, probs = nc.cross_process_probe(impl, rng, 12 if ctx.thorough else 4, redup=False)
+    ctx.count('cross-process identity rounds', ncase)
+    for pr in probs:
+        ctx.violation('impl-violation', op=pr['op'], input=json.dumps(pr['input']), observed=pr['observed'][:800], expected=pr['expected'])
     # --- traversals and counts
     for _ in range(N // 2):
         lst = [nc.gen_tree(impl, rng, rng.choice([0, 2, 4])) for _ in range(rng.choice([0, 1, 2, 3]))]
